@@ -45,6 +45,22 @@ pub fn run_one(out: &mut Out, sc: usize, s: &J) {
     let mut snap = snapshot(&ft);
     if snap.get("raw_aux").map(|x| x.is_null()).unwrap_or(false) { snap.as_object_mut().unwrap().remove("raw_aux"); }
     out.ev(json!({"ev": "Load", "sc": sc, "bytes": jbytes(&b), "dev": s["dev"], "r": snap}));
+    // the read-only views: the body alone, and inside a block / versioned block next to a second, plain body
+    if let (Some(body), Some(ws), true) = (s.get("body").filter(|x| x.as_array().map(|a| !a.is_empty()).unwrap_or(false)), s.get("ws").filter(|x| x.is_array()), s["ops"].as_array().map(|a| a.is_empty()).unwrap_or(true)) {
+        let (body, ws) = (get_bytes(body), get_bytes(ws));
+        let view = |fb: &csl::FixedTransactionBody| json!({"orig": jbytes(&fb.original_bytes()), "hash": jbytes(&fb.tx_hash().to_bytes()), "body": jbytes(&fb.transaction_body().to_bytes())});
+        let b1 = body.clone();
+        let alone = call(move || csl::FixedTransactionBody::from_bytes(b1)).to_json(|fb| view(&fb).as_object().cloned().unwrap());
+        let plain = { let mut ins = csl::TransactionInputs::new(); ins.add(&mk::txin(7, 1)); csl::TransactionBody::new_tx_body(&ins, &csl::TransactionOutputs::new(), &csl::BigNum::from(3u64)).to_bytes() };
+        let block: Vec<u8> = [vec![0x85], mk::header().to_bytes(), vec![0x82], body.clone(), plain.clone(), vec![0x82], ws.clone(), vec![0xa0], vec![0xa0, 0x80]].concat();
+        let bl = block.clone();
+        let views = |b: &csl::FixedBlock| { let t = b.transaction_bodies(); json!({"n": t.len(), "txs": (0..t.len()).map(|i| view(&t.get(i))).collect::<Vec<_>>()}) };
+        let in_block = call(move || csl::FixedBlock::from_bytes(bl)).to_json(|b| views(&b).as_object().cloned().unwrap());
+        let vblock: Vec<u8> = [vec![0x82, 0x07], block.clone()].concat();
+        let vb = vblock.clone();
+        let in_vblock = call(move || csl::FixedVersionedBlock::from_bytes(vb)).to_json(|b| views(&b.block()).as_object().cloned().unwrap());
+        out.ev(json!({"ev": "View", "sc": sc, "dev": s["dev"], "body_in": jbytes(&body), "block": jbytes(&block), "alone": alone, "in_block": in_block, "in_vblock": in_vblock}));
+    }
     for (i, op) in s["ops"].as_array().unwrap().iter().enumerate() {
         let name = op.as_str().unwrap();
         // the witness that will be added (so that the validator knows the exact element bytes)
